@@ -14,6 +14,7 @@ package gocql
 import (
 	"bufio"
 	"context"
+	"encoding/json"
 	"fmt"
 	"math/rand"
 	"os"
@@ -47,6 +48,7 @@ type vfC13E2ERun struct {
 	nodeDone  chan struct{} // closed when the delayed answer has been sent
 	ctx       context.Context
 	cancelLog bool
+	scen      string
 }
 
 func (r *vfC13E2ERun) execLocked() int {
@@ -146,6 +148,15 @@ func vfC13E2EHandler(addr string) func(nc *vfNodeConn, f *vfFrame, q *vfRequest)
 		class := r.classes[r.rng.Intn(len(r.classes))]
 		if r.rng.Intn(4) == 0 || r.total >= r.maxTries {
 			class = "ok"
+		}
+		if r.scen == "spec" {
+			// the first request (the main execution's) is answered late and with a retryable
+			// error, the second (the speculative execution's) at once and with success
+			if r.total == 1 {
+				class = "overloaded"
+			} else if r.total == 2 {
+				class = "ok"
+			}
 		}
 		r.classOf[aid] = class
 		delay := time.Duration(0)
@@ -343,7 +354,10 @@ func TestVfC13E2E(t *testing.T) {
 		cfgm := vfC13Cfg{K: 0, Idem: rng.Intn(4) != 0, Allow: []int{}, Hosts: []string{}}
 		// scenario: plain / the caller's deadline expires while the (slow) first node has not answered /
 		// a statement that is NOT idempotent with a speculative policy and a slow first node
-		scen := []string{"plain", "plain", "plain", "plain", "plain", "plain", "deadline", "specnonidem"}[rng.Intn(8)]
+		// / an idempotent statement whose main execution sits on a slow node that answers with an
+		// error only after a speculative execution elsewhere has delivered the result
+		scen := []string{"plain", "plain", "plain", "plain", "plain", "deadline", "specnonidem", "spec"}[rng.Intn(8)]
+		r.scen = scen
 		pols := []string{"none", "simple", "expo", "downgrade", "script"}
 		r.polName = pols[rng.Intn(len(pols))]
 		var real RetryPolicy
@@ -363,6 +377,9 @@ func TestVfC13E2E(t *testing.T) {
 		default:
 			cfgm.Polkind = "budget"
 			cfgm.Poln = rng.Intn(4)
+			if scen == "spec" {
+				cfgm.Poln = 2 + rng.Intn(2) // a budget the losing execution's retry would still fit in
+			}
 			switch r.polName {
 			case "simple":
 				real = &SimpleRetryPolicy{NumRetries: cfgm.Poln}
@@ -394,6 +411,11 @@ func TestVfC13E2E(t *testing.T) {
 			r.delay = 6 * time.Millisecond
 			ctx, cancel = context.WithTimeout(ctx, 1500*time.Microsecond)
 			r.ctx = ctx
+		case "spec":
+			cfgm.Idem = true
+			cfgm.K = 1
+			r.delay = 4 * time.Millisecond
+			spec = &SimpleSpeculativeExecution{NumAttempts: 1, TimeoutDelay: 300 * time.Microsecond}
 		case "specnonidem":
 			cfgm.Idem = false
 			cfgm.K = 1
@@ -442,7 +464,17 @@ func TestVfC13E2E(t *testing.T) {
 			rerr = s.ExecuteBatch(b)
 			vfC13E2EByStmt.Delete(ExecutableQuery(b))
 		}
+		// the caller has its result
+		r.mu.Lock()
+		class, ea := vfC13E2EErr(rerr)
+		if class == "canceled" || class == "deadline" {
+			r.noteExpiredLocked()
+		}
+		r.log = append(r.log, vfC13Ev{Ev: "return", N: -1, H: ea, X: class})
+		r.mu.Unlock()
 		cancel()
+		// settle, event based: the slow node has sent its answer, and every execution goroutine of
+		// the statement has ended - whatever they still do for the statement is in the trace
 		if r.delay > 0 {
 			r.mu.Lock()
 			seen := r.total > 0
@@ -453,25 +485,31 @@ func TestVfC13E2E(t *testing.T) {
 				case <-time.After(5 * time.Second):
 				}
 			}
-			time.Sleep(200 * time.Microsecond) // speculative stragglers, if the code started any
+		}
+		hang := ""
+		if cfgm.K > 0 {
+			deadline := time.Now().Add(5 * time.Second)
+			for strings.Contains(vfGoroutineDump(), "(*queryExecutor).run") {
+				if time.Now().After(deadline) {
+					hang = "an execution goroutine of the statement was still running 5s after the result was returned"
+					break
+				}
+				time.Sleep(100 * time.Microsecond)
+			}
 		}
 		vfC13E2ERuns.Delete(id)
 		r.mu.Lock()
-		class, ea := vfC13E2EErr(rerr)
-		if class == "canceled" || class == "deadline" {
-			r.noteExpiredLocked()
-		}
-		r.log = append(r.log, vfC13Ev{Ev: "return", N: -1, H: ea, X: class})
 		// hosts the round robin did not get to offer
 		for len(r.offered) < H {
 			r.offered = append(r.offered, "ok")
 		}
 		begin := vfC13Begin{Ev: "begin", Id: id, Hosts: r.offered, Polkind: cfgm.Polkind, Poln: cfgm.Poln, Allow: cfgm.Allow,
-			K: cfgm.K, Idem: cfgm.Idem, Policy: r.polName, Mode: "e2e:" + scen, Stmt: stmt, Obs: observer, Entries: entries}
+			K: cfgm.K, Idem: cfgm.Idem, Policy: r.polName, Mode: "e2e:" + scen, Stmt: stmt, Obs: observer, Entries: entries, Wire: true}
 		vfC13Write(w, begin, r.log)
 		sum := vfC13Summary{Id: id, Mode: "e2e", Policy: r.polName, Events: len(r.log)}
 		r.mu.Unlock()
-		fmt.Printf("VFC13SUM {\"id\":%d,\"mode\":\"e2e\",\"policy\":%q,\"exact\":false,\"diverged\":\"\",\"hang\":\"\",\"events\":%d,\"panic\":\"\",\"skipped\":false}\n",
-			sum.Id, sum.Policy, sum.Events)
+		sum.Hang = hang
+		sb, _ := json.Marshal(sum)
+		fmt.Printf("VFC13SUM %s\n", sb)
 	}
 }
